@@ -440,6 +440,9 @@ BOUNDED = {
     "C06": [dict(family="proper", obligation="proper_subtype/bounded-standin/proper.sub_vec",
                  known_cases="contracts/known_proper_cases.txt",
                  what="sub_vec_union / sub_vec_intersect / sub_vec_diff (assumed in C06; Verus rejects their labelled `continue`): reached through the public ProperSubtypeOps on all same-tag pairs of 52 proper subtypes (number lists over {1,2,3}, string lists over {a,b,c}, two typed-array kinds, allowed and excluded, booleans, diagrams), membership compared for every literal value")],
+    "C07": [dict(family="schema2", obligation="to_schema/bounded-standin/schema2.convert_to_schema",
+                 known_cases="contracts/known_schema2_cases.txt",
+                 what="the ASSUMED recursive entry point convert_to_schema and everything around the functions under contract (semtype_to_runtypes, the memo, to_sem_type reading the result back): every `X op Y` (union, intersection, difference) over 18 small source types (literal sets allowed/excluded over numbers and strings, basic tags, two object atoms, unknown, unknown minus an object), 972 round trips; literal values compared by an independent membership function, object parts by the engine's is_same_type")],
     "C05": [dict(family="listneg", obligation="list_shape/bounded-standin/listneg.list_is_empty",
                  known_cases="contracts/known_listneg_cases.txt",
                  what="list_is_empty / list_inhabited (assumed decider of C05): `a <: b | c` for tuple shapes with prefix <= 2 over {string, number} and an optional rest in {string, number}, against brute force over all lists of length <= 4 over three basic values"),
